@@ -31,6 +31,9 @@ type readerCase struct {
 	Data   hexb        `json:"data"` // the byte stream (repeated cyclically)
 	Events []readEvent `json:"events"`
 	Shape  string      `json:"shape,omitempty"`
+	// PrimeCheck: a sentence validated (CheckMnemonic, same language) immediately before the call:
+	// NewMnemonic must use the bytes its source delivers, not anything a validator left behind.
+	PrimeCheck text `json:"prime_check,omitempty"`
 }
 
 var errCustom = errors.New("verif: injected source failure")
@@ -106,6 +109,9 @@ var c06Check = register("C06", "c06.reader", func(c *readerCase) error {
 		harnessError("c06: bad case")
 	}
 	need := c.N / 3 * 4
+	if c.PrimeCheck != "" {
+		implCheck(string(c.PrimeCheck), implLang[l])
+	}
 	src := &scriptReader{data: c.Data, events: c.Events}
 	prev := bip39.VerifSwapRandSource(src)
 	got, err, p := implNew(c.N, implLang[l])
@@ -147,10 +153,11 @@ var c06Check = register("C06", "c06.reader", func(c *readerCase) error {
 			return failf(sig+" success", "source delivered %x without failing [%s]; NewMnemonic(%d, %s) = (%q, %v), want the encoding of the first %d bytes: %q", before, describe(), c.N, l, got, err, need, ref.Encode(before[:need], l))
 		}
 	case len(before)+len(with) >= need:
-		// the error arrives together with the completing bytes: the text leaves this open
+		// the failure arrives together with the completing bytes: all 4n/3 bytes were delivered, the
+		// source did not fail "before" that, so the first sentence of the property applies
 		all := append(append([]byte(nil), before...), with...)
-		if !okWith(all) && !(got == "" && err != nil) {
-			return failf(sig+" boundary", "source failed (%v) together with the completing bytes [%s]; NewMnemonic(%d, %s) = (%q, %v), want either the encoding of %x or (\"\", error)", firstErr, describe(), c.N, l, got, err, all[:need])
+		if !okWith(all) {
+			return failf(sig+" boundary", "source delivered all %d bytes, the last chunk together with %v [%s]; NewMnemonic(%d, %s) = (%q, %v), want the encoding of %x", need, firstErr, describe(), c.N, l, got, err, all[:need])
 		}
 	default:
 		if !failed {
@@ -169,7 +176,7 @@ var c06Check = register("C06", "c06.reader", func(c *readerCase) error {
 	return nil
 })
 
-const c06Rule = "C06: scripted randomness sources installed through the verif hook. Complete grid: n in {12,15,18,21,24} x failure point k in 0..4n/3-1 x kind {EOF, ErrUnexpectedEOF, custom, EAGAIN (Temporary), timeout (Timeout/Temporary)} x {error alone, error together with the last partial chunk} x fragmentation {one chunk, byte-wise, fixed cuts} x 10 languages; every fragmentation class of a successful delivery (single read, byte-wise, cuts, zero-byte reads interleaved, source offering more than asked, error together with the completing bytes); plus rapid-generated scripts. The source keeps delivering after a failure. Oracle: bytes delivered before the first failure decide: >= 4n/3 => (reference encoding of the first 4n/3, nil); fewer => (\"\", non-nil). Non-trivial: a failure after >= 1 delivered byte, or >= 2 fragments; distinct by the whole script"
+const c06Rule = "C06: scripted randomness sources installed through the verif hook. Complete grid: n in {12,15,18,21,24} x failure point k in 0..4n/3-1 x kind {EOF, ErrUnexpectedEOF, custom, EAGAIN (Temporary), timeout (Timeout/Temporary)} x {error alone, error together with the last partial chunk} x fragmentation {one chunk, byte-wise, fixed cuts} x 10 languages; every fragmentation class of a successful delivery (single read, byte-wise, cuts, zero-byte reads interleaved, source offering more than asked, error together with the completing bytes); plus rapid-generated scripts, half of them run immediately after a CheckMnemonic call on an unrelated valid sentence. The source keeps delivering after a failure. Oracle: the bytes delivered up to and including the call that reports the first failure decide: >= 4n/3 => (reference encoding of the first 4n/3, nil); fewer => (\"\", non-nil). Non-trivial: a failure after >= 1 delivered byte, or >= 2 fragments; distinct by the whole script"
 
 func c06Record(c *readerCase) {
 	cov.Eval(1)
@@ -323,6 +330,11 @@ func c06RandomProp(rt *rapid.T) {
 	}
 	ev = kept
 	c := &readerCase{Lang: l.Name(), N: n, Data: data, Events: ev, Shape: "random/" + e.Shape}
+	if rapid.Bool().Draw(rt, "primed") {
+		pe := gen.Entropy().Draw(rt, "prime-entropy")
+		c.PrimeCheck = text(ref.Encode(pe.Bytes, l))
+		cov.Class("primed-by-validation")
+	}
 	c06Record(c)
 	if c06RandomPropK++; c06RandomPropK%997 == 1 {
 		cov.Sample("c06.reader", c)
@@ -335,4 +347,68 @@ func c06RandomProp(rt *rapid.T) {
 func FuzzC06(f *testing.F) {
 	cov.Rule(c06Rule)
 	f.Fuzz(rapid.MakeFuzz(c06RandomProp))
+}
+
+// c06.concurrent: one shared, stateless source whose behaviour depends only on the size of the
+// request — 16..28-byte requests are served in full with bytes derived from the size, a 32-byte
+// request gets 10 bytes and a failure. Goroutines call NewMnemonic with different counts at once:
+// every 24-word call must fail closed, every other call must return the encoding of its own bytes.
+type sizeSource struct{}
+
+func sizeSourceBytes(n int) []byte {
+	b := make([]byte, n)
+	for i := range b {
+		b[i] = byte(n*37 + i*11 + 3)
+	}
+	return b
+}
+
+func (sizeSource) Read(p []byte) (int, error) {
+	if len(p) == 32 {
+		copy(p, sizeSourceBytes(10))
+		return 10, errCustom
+	}
+	copy(p, sizeSourceBytes(len(p)))
+	return len(p), nil
+}
+
+type concReaderCase struct {
+	Goroutines int    `json:"goroutines"`
+	Rounds     int    `json:"rounds"`
+	Lang       string `json:"lang"`
+}
+
+var c06ConcCheck = register("C06", "c06.concurrent", func(c *concReaderCase) error {
+	l := mustLang(c.Lang)
+	prev := bip39.VerifSwapRandSource(sizeSource{})
+	defer bip39.VerifSwapRandSource(prev)
+	counts := []int{12, 24, 15, 24, 18, 21, 24, 12}
+	return concurrently(counts, c.Goroutines, c.Rounds, func(n *int) error {
+		got, err, p := implNew(*n, implLang[l])
+		sig := fmt.Sprintf("C06 reader n=%d", *n)
+		if p != nil {
+			return failf(sig+" panic", "NewMnemonic(%d, %s) panicked: %v", *n, l, p)
+		}
+		if *n == 24 {
+			if got != "" || err == nil {
+				return failf(sig+" fail-open", "the source failed after 10 of 32 bytes; NewMnemonic(24, %s) = (%q, %v), want (\"\", non-nil error)", l, got, err)
+			}
+			return nil
+		}
+		if want := ref.Encode(sizeSourceBytes(*n/3*4), l); err != nil || got != want {
+			return failf(sig+" success", "the source delivered %x in full; NewMnemonic(%d, %s) = (%q, %v), want (%q, nil)", sizeSourceBytes(*n/3*4), *n, l, got, err, want)
+		}
+		return nil
+	})
+})
+
+func TestC06_Concurrent(t *testing.T) {
+	cov.Rule(c06Rule + " || concurrent variant: 8 goroutines call NewMnemonic with different counts at once against one stateless source that serves 16..28-byte requests in full and fails 32-byte requests after 10 bytes")
+	for round := 0; round < pick(2, 10); round++ {
+		c := &concReaderCase{Goroutines: 8, Rounds: pick(1500, 10000), Lang: ref.Lang(round % int(ref.NumLangs)).Name()}
+		cov.Eval(8 * c.Goroutines * c.Rounds)
+		cov.Class("concurrent-batch")
+		cov.NonTrivial("c06.concurrent", []byte(fmt.Sprint(round, cfg.Tier)))
+		judge(t, "c06.concurrent", c06ConcCheck, c)
+	}
 }
